@@ -175,19 +175,23 @@ func init() {
 		if a.isConst() {
 			return a.c.BitLen()
 		}
-		// Exact only for comparisons against thresholds 64, 128, 255, 256, 257 (the ones sdkmath uses):
+		// Exact only for comparisons against the thresholds used by cosmossdk.io/math and callers.
 		abs := intAbs(a)
 		pow := func(n uint) *Term { return mkIntBig(new(big.Int).Lsh(big.NewInt(1), n)) }
-		fr.px().w.ex.noteAssumption("big.Int.BitLen on a symbolic value is abstracted to the thresholds {0,63,64,128,255,256,257}")
-		r := mkIte(intCmp(">=", abs, pow(256)), mkBV(64, 257),
-			mkIte(intCmp(">=", abs, pow(255)), mkBV(64, 256),
-				mkIte(intCmp(">=", abs, pow(254)), mkBV(64, 255),
-					mkIte(intCmp(">=", abs, pow(128)), mkBV(64, 129),
-						mkIte(intCmp(">=", abs, pow(127)), mkBV(64, 128),
-							mkIte(intCmp(">=", abs, pow(64)), mkBV(64, 65),
-								mkIte(intCmp(">=", abs, pow(63)), mkBV(64, 64),
-									mkIte(mkEq(abs, mkInt(0)), mkBV(64, 0), mkBV(64, 63)))))))))
+		fr.px().w.ex.noteAssumption("big.Int.BitLen of a symbolic value is abstracted: exact only at the thresholds {0,63..65,127..129,254..257,314..316}")
+		r := mkIte(mkEq(abs, mkInt(0)), mkBV(64, 0), mkBV(64, 1))
+		for _, n := range []uint{63, 64, 65, 127, 128, 129, 254, 255, 256, 257, 314, 315, 316} {
+			// BitLen >= n  <=>  abs >= 2^(n-1)
+			r = mkIte(intCmp(">=", abs, pow(n-1)), mkBV(64, uint64(n)), r)
+		}
 		return mkVal(r, types.Int)
+	})
+	externals["cosmossdk.io/math.bigIntOverflows"] = func(fr *frame, args []value) value {
+		a := getBig(args[0])
+		return mkVal(intCmp(">=", intAbs(a), mkIntBig(new(big.Int).Lsh(big.NewInt(1), 256))), types.Bool)
+	}
+	B("Bits", func(fr *frame, args []value) value {
+		panic(engineError{"big.Int.Bits (raw words) not modelled"})
 	})
 	B("IsInt64", func(fr *frame, args []value) value {
 		a := getBig(args[0])
@@ -342,6 +346,9 @@ func decimalString(fr *frame, a *Term) value {
 		return a.c.String()
 	}
 	px := fr.px()
+	if r, ok := px.decimals[a]; ok {
+		return r
+	}
 	var conds []*Term
 	ten := big.NewInt(10)
 	lo := big.NewInt(0)
@@ -353,7 +360,7 @@ func decimalString(fr *frame, a *Term) value {
 	}
 	conds = append(conds, intCmp("<", a, mkInt(0)))
 	conds = append(conds, intCmp(">=", a, mkIntBig(lo)))
-	c := px.decide(conds)
+	c := px.decideX(conds, true)
 	if c == maxSymDigits {
 		panic(pathLimit{"decimal rendering of a negative symbolic big integer"})
 	}
@@ -377,19 +384,25 @@ func decimalString(fr *frame, a *Term) value {
 		out[j] = symv{t: ch, k: types.Uint8}
 	}
 	px.assertPC(mkEq(sum, a))
+	if px.decimals == nil {
+		px.decimals = map[*Term]sstr{}
+	}
+	px.decimals[a] = out
 	return out
 }
 
 // decimalBV renders a symbolic unsigned/signed machine integer in decimal.
 func decimalBV(fr *frame, v symv) value {
 	px := fr.px()
+	if r, ok := px.decimals[v.t]; ok {
+		return r
+	}
 	w, signed := kindWidth(v.k)
 	if signed {
 		if px.branch(bvCmp("bvslt", v.t, mkBV(w, 0))) {
 			panic(pathLimit{"decimal rendering of a negative symbolic integer"})
 		}
 	}
-	// work in max(w,32) bits to keep constants representable
 	t := v.t
 	ww := w
 	if ww < 32 {
@@ -405,22 +418,32 @@ func decimalBV(fr *frame, v symv) value {
 		hi *= 10
 	}
 	conds = append(conds, bvCmp("bvuge", t, mkBV(ww, lo)))
-	c := px.decide(conds)
+	c := px.decideX(conds, true)
 	if c == maxSymDigits {
 		panic(pathLimit{fmt.Sprintf("decimal rendering of a symbolic integer with more than %d digits", maxSymDigits)})
 	}
 	nd := c + 1
+	// on this path t < 10^maxSymDigits < 2^24: do the digit arithmetic in 24 bits
+	const dw = 24
 	out := make(sstr, nd)
-	sum := mkBV(ww, 0)
+	sum := mkBV(dw, 0)
 	pow := uint64(1)
 	for j := nd - 1; j >= 0; j-- {
 		ch := px.freshVar("", bvSort(8))
 		px.assertPC(mkAnd(bvCmp("bvuge", ch, mkBV(8, '0')), bvCmp("bvule", ch, mkBV(8, '9'))))
-		dv := bvBin("bvsub", bvZext(ww, ch), mkBV(ww, '0'))
-		sum = bvBin("bvadd", sum, bvBin("bvmul", dv, mkBV(ww, pow)))
+		dv := bvBin("bvsub", bvZext(dw, ch), mkBV(dw, '0'))
+		sum = bvBin("bvadd", sum, bvBin("bvmul", dv, mkBV(dw, pow)))
 		pow *= 10
 		out[j] = symv{t: ch, k: types.Uint8}
 	}
-	px.assertPC(mkEq(sum, t))
+	if nd > 1 {
+		// no leading zero
+		px.assertPC(mkNot(mkEq(termOf(out[0]), mkBV(8, '0'))))
+	}
+	px.assertPC(mkEq(sum, bvExtract(dw-1, 0, t)))
+	if px.decimals == nil {
+		px.decimals = map[*Term]sstr{}
+	}
+	px.decimals[v.t] = out
 	return out
 }
